@@ -482,9 +482,12 @@ func wantOp(op string) bool {
 // doOne re-executes saved mismatch cases: file holds {"family":..,"case":..}; the family's
 // replay function is fed the case re-wrapped as a line.
 func doOne(args []string) {
-	useCtx := false
+	useCtx, usePar := false, false
 	if len(args) > 0 && args[0] == "-ctx" {
 		useCtx = true
+		args = args[1:]
+	} else if len(args) > 0 && args[0] == "-par" {
+		usePar = true
 		args = args[1:]
 	}
 	if len(args) < 1 {
@@ -515,6 +518,42 @@ func doOne(args []string) {
 		f.initOnce()
 	}
 	a := newAcc(r.Family)
+	if usePar {
+		// neither the case alone nor its context reproduced sequentially, and the family is one whose lines are replayed by
+		// concurrent workers on PRIVATE inputs: the candidate came from calls overlapping in time.  The case and its context are
+		// replayed by 8 goroutines at once (each with its own accumulator); reproduced iff the same class shows again.
+		if f.serial {
+			fmt.Fprintln(os.Stderr, "mxjconf: family", r.Family, "is serial; -par does not apply")
+			os.Exit(2)
+		}
+		lines := append(append([]string{}, r.Ctx...), string(r.Case))
+		accs := make([]*Acc, 8)
+		var wg sync.WaitGroup
+		for g := range accs {
+			accs[g] = newAcc(r.Family)
+			wg.Add(1)
+			go func(ag *Acc) {
+				defer wg.Done()
+				for rep := 0; rep < 40; rep++ {
+					for _, l := range lines {
+						f.replay([]byte(l), ag)
+					}
+				}
+			}(accs[g])
+		}
+		wg.Wait()
+		hit := false
+		for _, ag := range accs {
+			if ag.SigCounts[r.Sig] > 0 {
+				hit = true
+			}
+		}
+		runAtExit()
+		if hit {
+			os.Exit(1)
+		}
+		return
+	}
 	if useCtx {
 		// the lines that preceded the mismatch in its process, in order: reproduced iff the same class shows again
 		// (a family whose lines are sessions recorded from the code -- "path" -- reports a reproduced LAST session;
